@@ -454,6 +454,10 @@ def run_case(case: dict, workdir: str, ext_so: str | None) -> dict:
         os.environ["C15_PATHMUT"] = cfg.get("pathmut", "none")
         os.environ["C15_CFAULTS"] = json.dumps(b.cfaults)
         rec = Recorder(cfg, root)
+        path_before_case = list(sys.path)
+        if cfg.get("onpath"):
+            # the search directory is already an entry of sys.path when the call is made (same string as the resolved search path)
+            sys.path.append(os.path.realpath(b.sp))
         rec.path0 = sys.path
         rec.path0_copy = list(sys.path)
         rec.path_stack = []
@@ -473,7 +477,16 @@ def run_case(case: dict, workdir: str, ext_so: str | None) -> dict:
         REC = rec
         outcome = "Return"
         try:
-            if entry == "load_git":
+            if entry == "attrs":
+                # a loader built with the default options whose public option attributes are assigned afterwards
+                loader = griffe.GriffeLoader(search_paths=[b.sp, *b.extra_paths])
+                loader.allow_inspection = cfg["allow"]
+                loader.force_inspection = cfg["force"]
+                rec.emit("SetOptions", allow=cfg["allow"], force=cfg["force"])
+                loader.load(objspec, submodules=cfg.get("submodules", True), try_relative_path=form == "relpath", find_stubs_package=cfg["findstubs"])
+                if cfg["resolve"]:
+                    loader.resolve_aliases(implicit=False, external=ext)
+            elif entry == "load_git":
                 # the second caller of the protocol: the package is checked out of a real repository, options are forwarded
                 griffe.load_git(
                     objspec,
@@ -550,7 +563,7 @@ def run_case(case: dict, workdir: str, ext_so: str | None) -> dict:
         # observation above has already been taken
         if sys.path is not rec.path0:
             sys.path = rec.path0
-        sys.path[:] = rec.path0_copy
+        sys.path[:] = path_before_case
         for name in list(sys.modules):
             if name in uni or name.startswith("p."):
                 del sys.modules[name]
